@@ -14,7 +14,9 @@ import VerifModel.Model.NcAssemble
     attributes  long_name or standard_name, units, x0, x1   (all optional)
 
   A missing cell may be written in any of the encodings of `Enc`: left as the fill value /
-  masked, NaN, -999, or any value above 1e30 (incl. +inf).  The writer chooses per cell.
+  masked, NaN, -999, or any value above 1e30 (incl. +inf).  The writer chooses per cell — of the
+  data variables and of the coordinate variables (time, leadtime, location, lat, lon, altitude,
+  threshold, quantile) alike.
 -/
 namespace VerifModel.Spec
 open VerifModel
@@ -48,7 +50,9 @@ structure NcLayout where
 def encArr (L : NcLayout) (name : String) (a : CArr) : NcArr :=
   ⟨a.dims, a.data.mapIdx fun k c => encCell (L.enc name k) c⟩
 
-def numVec (l : List Rat) : NcArr := ⟨[l.length], l.map fun q => .val (.fin q)⟩
+/-- a coordinate variable: one dimension, entry k stored as a number or — when missing — in the
+encoding the writer chose for cell k of that variable -/
+def encVec (L : NcLayout) (name : String) (l : List Cell) : NcArr := encArr L name ⟨[l.length], l⟩
 
 /-- the NetCDF file (as the reader sees it) that carries table `T` in the documented layout -/
 def toNcVars (L : NcLayout) (T : DenseTable) : NcVars where
@@ -56,17 +60,17 @@ def toNcVars (L : NcLayout) (T : DenseTable) : NcVars where
     ++ optDim "threshold" (T.prob.map fun p => p.1.length)
     ++ optDim "quantile" (T.quant.map fun p => p.1.length)
     ++ optDim "ensemble_member" (T.ens.map fun a => a.dims.getLastD 0)
-  vars := [("time", numVec T.times), ("leadtime", numVec T.leads)]
-    ++ optVar "location" (T.ids.map numVec)
-    ++ optVar "lat" (T.lats.map numVec)
-    ++ optVar "lon" (T.lons.map numVec)
-    ++ optVar "altitude" (T.elevs.map numVec)
+  vars := [("time", encVec L "time" T.times), ("leadtime", encVec L "leadtime" T.leads)]
+    ++ optVar "location" (T.ids.map (encVec L "location"))
+    ++ optVar "lat" (T.lats.map (encVec L "lat"))
+    ++ optVar "lon" (T.lons.map (encVec L "lon"))
+    ++ optVar "altitude" (T.elevs.map (encVec L "altitude"))
     ++ optVar "obs" (T.obs.map (encArr L "obs"))
     ++ optVar "fcst" (T.fcst.map (encArr L "fcst"))
     ++ optVar "pit" (T.pit.map (encArr L "pit"))
-    ++ optVar "threshold" (T.prob.map fun p => numVec p.1)
+    ++ optVar "threshold" (T.prob.map fun p => encVec L "threshold" p.1)
     ++ optVar "cdf" (T.prob.map fun p => encArr L "cdf" p.2)
-    ++ optVar "quantile" (T.quant.map fun p => numVec p.1)
+    ++ optVar "quantile" (T.quant.map fun p => encVec L "quantile" p.1)
     ++ optVar "x" (T.quant.map fun p => encArr L "x" p.2)
     ++ optVar "ensemble" (T.ens.map (encArr L "ensemble"))
     ++ T.others.map fun p => (p.1, encArr L p.1 p.2)
